@@ -119,10 +119,16 @@ def _json_dumps(I, args, kw):
     """json.dumps(x, **opts) without `indent`: a deterministic uninterpreted function of (x, opts) into strings.
     Trusted fact: the output contains no raw LF / CR (control characters inside strings are escaped)."""
     x = args[0]
-    if isinstance(x, VDictRec):
-        raise Unsupported("json.dumps of a literal dict")
     tag = _dumps_tag(kw)
-    t = typeof(x)
+    try:
+        t = typeof(x)
+    except TypeError:
+        # a value with no single encoding (literal dict of mixed values, heap objects): an arbitrary string per call
+        # (sound over-approximation of a deterministic function whose argument is not tracked), still without raw LF/CR
+        r = I.path.fresh("json_dumps_opaque", z3.StringSort())
+        I.path.assume(z3.And(z3.Not(z3.Contains(r, z3.StringVal("\n"))), z3.Not(z3.Contains(r, z3.StringVal("\r")))))
+        I.ver.note_assumption("json.dumps of an untracked python value: arbitrary string without raw LF/CR")
+        return VStr(r)
     nm = "json_dumps<%s>_%s" % (tag, "".join(c if c.isalnum() else "_" for c in t.name))
     f = z3.Function(nm, t.sort(), z3.StringSort())
     r = f(unwrap(x, t))
